@@ -370,7 +370,9 @@ struct OpStats
     ll setshift;   // number of set_shift calls
     ll thrown;     // faults thrown so far
     ll thrown_since_arm;
-    OpStats() : count(0), total(0), bad(0), fault_at(0), fault_tag(0), probe(0), in_probe(false), setshift(0), thrown(0), thrown_since_arm(0) {}
+    int fault_kind; // 0: throw vh::Fault (derived from std::exception); 1: throw vh::RawFault (NOT derived from std::exception);
+                    // 2: no exception - the operator RETURNS a vector whose first entry is NaN (a library wrapper further down may throw)
+    OpStats() : count(0), total(0), bad(0), fault_at(0), fault_tag(0), probe(0), in_probe(false), setshift(0), thrown(0), thrown_since_arm(0), fault_kind(0) {}
 };
 
 struct Fault : public std::exception
@@ -378,6 +380,13 @@ struct Fault : public std::exception
     ll tag;
     explicit Fault(ll t) : tag(t) {}
     const char* what() const throw() { return "vh::Fault"; }
+};
+
+// a user exception type outside the std::exception hierarchy (C14: the exception propagates unchanged whatever its type)
+struct RawFault
+{
+    ll tag;
+    explicit RawFault(ll t) : tag(t) {}
 };
 
 struct TraceSink : public Spectra::verif::Sink
@@ -440,9 +449,21 @@ struct CountOp
         }
         if (st->fault_at && st->total == st->fault_at)
         {
-            st->thrown++;
             st->thrown_since_arm++;
             st->fault_at = 0;
+            if (st->fault_kind != 2)
+                st->thrown++;   // exceptions of the user's operator that must reach the caller as they are
+            if (st->fault_kind == 2)
+            {
+                in.perform_op(x, y);
+                st->count++;
+                if (st->in_probe)
+                    st->probe++;
+                y[0] = std::numeric_limits<typename Eigen::NumTraits<Scalar>::Real>::quiet_NaN();
+                return;
+            }
+            if (st->fault_kind == 1)
+                throw RawFault(st->fault_tag);
             throw Fault(st->fault_tag);
         }
         in.perform_op(x, y);
